@@ -67,6 +67,20 @@ def pigeonhole_family():
     return out
 
 
+def near_equal_large(rng, count):
+    """5-7 items of the form B + r (B = 1e5..1e7, r < 40) into 2-3 bins: partial sums that are relatively close (1e-5 and less) without being equal -
+    what a tolerance comparison (isclose) on bin sums, or single-precision sums, would confuse"""
+    out = []
+    for i in range(count):
+        B = rng.choice([10 ** 5, 10 ** 6, 10 ** 7])
+        k = rng.choice([2, 3, 3])
+        # mostly a multiple of k items: then the balanced partitions' extreme sums are all relatively close to total/k (the perfect-partition bound)
+        n = (rng.choice([6, 6, 8]) if k == 2 else 6) if i % 4 else rng.randint(5, 7)
+        spread = rng.choice([40, 40, 2000])
+        out.append({"vals": [B + rng.randint(0, spread) for _ in range(n)], "k": k})
+    return out
+
+
 def witness_family(rng, count):
     """instances beyond the exhaustive TLA+ oracle (8-11 items, 3-5 bins) for the witness-judged half of C02: the sizes at which the recursive /
     sequential partitioners' branches, windows and incumbent updates do real work (a 5-bin defect of rnp showed on about 1 in 1000 such inputs)"""
